@@ -26,7 +26,7 @@ DUAL = ['map', 'starmap', 'filter', 'flat_map', 'scan', 'count', 'sum', 'mean', 
 class C01(Check):
     ID = 'C01'
     LEVEL = 'exploration'
-    BUDGET = {'quick': 30, 'thorough': 300}
+    BUDGET = {'quick': 30, 'thorough': 240}
     RULE = ('case = (pipeline P of 1..6 operators from the 29 dual-mode operators - tee_map with 2-4 branches in its three join modes, nested once -, keyed input: 1..8 groups '
             '(occasionally 50) of 0..40 items each, interleaving shape round-robin / blocks / reversed blocks / random / singletons-first; mode group_by, bare multiplex, or '
             'inside roll / split windows). Predicates return bool in the main class; a separate class uses predicates returning truthy non-bool values. '
@@ -43,7 +43,7 @@ class C01(Check):
     REQUIRED_OBSERVED = ['groups_compared', 'items_compared']
 
     def generate(self, rng, tier, shard, nshards):
-        n = 6000 if tier == 'quick' else 40000
+        n = 6000 if tier == 'quick' else 10 ** 7
         modes = ['group', 'group', 'group', 'multiplex', 'roll', 'split']
         for k in range(n):
             truthy = (k % 10 == 9)
